@@ -198,7 +198,7 @@ def eval_disp(case):
         nvm = 1
         LA = vm.package_L(entA, dA); LB = vm.package_L(entB, dB)
         sc = vm.tscale(*LA)
-        tol = max(vm.bz_tol(entA, dA)[0], vm.bz_tol(entB, dB)[0])
+        tol = vm.bz_tol(entA, dA)[0] + vm.bz_tol(entB, dB)[0]    # two independent k-mesh errors, one per crystal
         for name, a, b in zip(('L0vv', 'Lss', 'Lsv', 'L1vv'), LA, LB):
             e = float(np.abs(a - b).max()) / sc
             if e > tol: viols.append({'oracle': name + '-displacement', 'key': 'vm/' + key + ';vb=1', 'detail': {'relerr': e, 'tol': tol, 'A': a.tolist(), 'B': b.tolist()}})
